@@ -78,8 +78,15 @@ fn history<const D: usize>(hid: usize, rng: &mut Rng, out: &mut Out, steps: usiz
     let Some(mut w): Option<World<D>> = hist::start_built_with::<D>(&ps.pts, 1, &tri::Opts { order: 3, dedup, simplex: 0, retry: 0 }, rng) else { return };
     probes(&mut w, hid, 0, "build", rng, out, budget);
     for s in 1..=steps {
-        let op = match rng.below(9) {
-            0 | 1 => {
+        let op = match rng.below(11) {
+            9 | 10 if !w.removed.is_empty() => {
+                // a vertex comes back at EXACTLY a former position: the grid bucket there holds the
+                // stale key of the removed vertex next to the live one
+                let r = *rng.pick(&w.removed);
+                let _ = w.do_insert(r, false, rng);
+                "reinsert_former"
+            }
+            0 | 1 | 9 | 10 => {
                 let (p, _) = w.pick_point(rng, 8);
                 let _ = w.do_insert(p, false, rng);
                 "insert"
@@ -157,9 +164,13 @@ fn bootstrap<const D: usize>(hid: usize, rng: &mut Rng, out: &mut Out, budget: u
     let mut w: World<D> = hist::start_empty::<D>(1);
     let pts = gens::to_f(&gens::general_position(rng, D, D + 4, 6), 1.0, 0.0);
     let mut next = 0usize;
-    for s in 0..(D + 6) {
+    for s in 0..(D + 8) {
         let bootstrapping = w.dt.number_of_cells() == 0;
-        let op = if bootstrapping && w.dt.number_of_vertices() >= 1 && rng.chance(1, 3) {
+        let op = if !w.removed.is_empty() && rng.chance(1, 3) {
+            let r = *rng.pick(&w.removed);
+            let _ = w.do_insert(r, false, rng);
+            if bootstrapping { "boot_reinsert_former" } else { "reinsert_former" }
+        } else if bootstrapping && w.dt.number_of_vertices() >= 1 && rng.chance(1, 3) {
             let keys = w.live_keys();
             let vk = *rng.pick(&keys);
             let _ = w.do_remove(Some(vk), rng);
